@@ -347,25 +347,25 @@ func (lv *tlLevel) isTableRef(t types.Type) bool {
 // ---- per-function state ----
 
 type tlFunc struct {
-	e       *tlEngine
-	fn      *ssa.Function
-	ctx     map[int]bool
-	ctxS    string
-	dead    map[*ssa.BasicBlock]bool
-	deadE   map[*ssa.BasicBlock]int // block -> index of its pruned successor edge (bool-constant context)
-	in      map[*ssa.BasicBlock]factSet
-	out     map[*ssa.BasicBlock]factSet // facts at block end (before edge gens)
-	prov    map[ssa.Value]atomSet
-	busy    map[ssa.Value]bool
+	e          *tlEngine
+	fn         *ssa.Function
+	ctx        map[int]bool
+	ctxS       string
+	dead       map[*ssa.BasicBlock]bool
+	deadE      map[*ssa.BasicBlock]int // block -> index of its pruned successor edge (bool-constant context)
+	in         map[*ssa.BasicBlock]factSet
+	out        map[*ssa.BasicBlock]factSet // facts at block end (before edge gens)
+	prov       map[ssa.Value]atomSet
+	busy       map[ssa.Value]bool
 	provHits   map[ssa.Value]bool    // values met while busy during the current provOf evaluation
 	provApprox map[ssa.Value]atomSet // current approximation of cycle heads
-	roots   map[ssa.Value]string
-	rbusy   map[ssa.Value]bool
-	grp     map[ssa.Value]ssa.Value // union-find over slot-slice values
-	gstore  map[ssa.Value][]ssa.Value
-	gsrc    map[ssa.Value][]ssa.Value
-	sum     *tlSummary
-	hstores map[string][]string
+	roots      map[ssa.Value]string
+	rbusy      map[ssa.Value]bool
+	grp        map[ssa.Value]ssa.Value // union-find over slot-slice values
+	gstore     map[ssa.Value][]ssa.Value
+	gsrc       map[ssa.Value][]ssa.Value
+	sum        *tlSummary
+	hstores    map[string][]string
 }
 
 func ctxString(ctx map[int]bool) string {
